@@ -40,6 +40,12 @@ no option to rewrite) — and is answered with that request's answer (`NV.C01.up
 every UDP limit). -/
 def stepStaleQ (toks : List String) : Option String :=
   match toks with
+  | ["d53soak", ns] =>
+    -- n exchanges with a plain-DNS upstream that answers each at once: every exchange is decided by its own datagrams
+    -- (`NV.C03.dns53_*`: the model of DNS53.resolve has no state between exchanges), so all n are answered
+    match ns.toNat? with
+    | some n => if n = 0 ∨ n > 1000000 then some "bad-op" else some s!"answered={n}/{n}"
+    | none => some "bad-op"
   | ["staleq", tr, proto, ks, h] =>
     match ks.toNat?, ofHex h with
     | some k, some p =>
